@@ -50,7 +50,7 @@ TIME_VALUES = [dt.time(1, 2, 3), dt.time(23, 59, 59, 999999), dt.time(4, 5, 6, t
 DATETIME_VALUES = [dt.datetime(2020, 1, 2, 3, 4, 5), dt.datetime(2021, 12, 31, 23, 59, 59, 123456),
                    dt.datetime(2020, 6, 1, 12, 0, tzinfo=TZ), dt.datetime(1999, 1, 1, tzinfo=dt.timezone.utc)]
 UUID_VALUES = [uuid.UUID(int=0), uuid.UUID("12345678-1234-5678-1234-567812345678")]
-ENUM_VALUES = [StrEnumU.plain, StrEnumU.quote, IntEnumU.one, IntEnumU.neg, MixIntEnumU.low, MixIntEnumU.high, MixStrEnumU.red,
+ENUM_VALUES = [StrEnumU.plain, StrEnumU.quote, StrEnumU.pct, IntEnumU.one, IntEnumU.neg, MixIntEnumU.low, MixIntEnumU.high, MixStrEnumU.red,
                MixStrEnumU.quote, PlainIntEnumU.three, PlainIntEnumU.minus]
 JSON_VALUES = [
     {"k": "v"}, [1, 2, 3], [], {}, {"a": {"b": [1, None, True, 2.5]}}, ["it's"], {"it's": "a'b"}, {"k": "back\\slash"},
@@ -122,6 +122,7 @@ NAME_CLASSES = [
     ("comment-open", "a/*b"), ("qmark", "a?b"), ("percent-s", "a%sb"), ("dollar", "a$1"), ("unicode", "naïve_列"),
     ("non-bmp", "t\U0001F600"), ("digit-start", "1abc"), ("semicolon", "a;b"), ("paren", "a(b)"), ("comma", "a,b"),
     ("bracket", "a[b]"), ("long-31", "monthly_customer_invoice_totals"), ("long-64", "n" * 64), ("long-200", "very_long_name_" * 13 + "tail"),
+    ("braces", "ev{1}"), ("double-braces", "a{{b}}"), ("brace-word", "t{criterion}"), ("lone-brace", "a{b"), ("percent-paren", "a%(x)sb"),
     ("len-1", "q"), ("len-2", "zq"), ("len-2-digit", "k7"), ("len-3", "zqv"),
     ("only-dquote", '"'), ("only-backtick", "`"), ("trailing-dquote", 'ab"'), ("newline", "a\nb"),
 ]
@@ -130,5 +131,5 @@ NAME_CLASSES = [
 def random_name(rnd):
     n = rnd.randint(1, 8) if rnd.random() < 0.9 else rnd.randint(28, 70)
     atoms = ['"', "`", "'", ".", " ", "\\", "--", "/*", "?", "%s", "$1", ";", ",", "(", ")", "[", "]", "A", "b", "_", "9",
-             "é", "列", "\U0001F600", "select", "\n", "\t"]
+             "é", "列", "\U0001F600", "select", "\n", "\t", "{", "}", "{0}", "%"]
     return "".join(rnd.choice(atoms) if rnd.random() < 0.6 else chr(rnd.randint(97, 122)) for _ in range(n)) or "x"
